@@ -35,12 +35,12 @@ type colSpec struct {
 	Enum []string
 }
 
-var textAlts = []string{"with space", `comma, and "quote"`, "ünï-çødé 日本", "line1\nline2", "#7 starts with a hash", ""}
+var textAlts = []string{"with space", `comma, and "quote"`, "ünï-çødé 日本", "line1\nline2", "#7 starts with a hash", "", "para 1\n\npara 2\n \npara 3", "A &amp; B &lt;i&gt; &#39;q&#39; ?a=1&region=x&copy=2"}
 var timeAlts = []string{"00:00:00", "4:05:06", "25:10:05", "47:59:59"}
-var decimalAlts = []string{"0", "1.5", "-73.25", " 2.5 ", "1e-3"}
+var decimalAlts = []string{"0", "1.5", "-73.25", " 2.5 ", "1e-3", "40.295390375177476", "-106.85272440696379", "1592.7733726954207", "11216.913859208591"}
 var intAlts = []string{"0", "-5", "2147483647"}
-var dateAlts = []string{"20240310", "20231105", "19700101", "20240229", "20241231", "20241006", "20240407", "99991231", "00010101"}
-var zoneAlts = []string{"Europe/London", "Asia/Kolkata", "UTC", "Mars/Phobos", "Australia/Sydney", "Australia/Lord_Howe", "Japan", "EST5EDT", "America/New_York"}
+var dateAlts = []string{"20240310", "20231105", "19700101", "20240229", "20241231", "20241006", "20240407", "99991231", "00010101", "20240908"}
+var zoneAlts = []string{"Europe/London", "Asia/Kolkata", "UTC", "Mars/Phobos", "Australia/Sydney", "Australia/Lord_Howe", "Japan", "EST5EDT", "America/Santiago", "America/New_York"}
 var colorAlts = []string{"FFFFFF", "000000", "ff00aa"}
 
 var (
@@ -161,7 +161,7 @@ func (g *staticGen) cell(file string, row int, sp colSpec) string {
 	case kText:
 		return alt(fmt.Sprintf("%s %d", sp.Name, u), textAlts)
 	case kTextReq:
-		return alt(fmt.Sprintf("%s %d", sp.Name, u), textAlts[:5])
+		return alt(fmt.Sprintf("%s %d", sp.Name, u), append(append([]string{}, textAlts[:5]...), textAlts[6:]...))
 	case kEnum:
 		base := sp.Enum[(u+row)%len(sp.Enum)]
 		k := g.choose(label, len(sp.Enum))
@@ -194,7 +194,7 @@ func (g *staticGen) cell(file string, row int, sp colSpec) string {
 		return alt(fmt.Sprintf("2024%02d%02d", 1+u%12, 1+u%28), dateAlts)
 	case kZone:
 		if row == 0 {
-			return alt("America/New_York", zoneAlts[:8])
+			return alt("America/New_York", zoneAlts[:9])
 		}
 		return alt(zoneAlts[(row-1)%len(zoneAlts)], zoneAlts[1:])
 	case kBool:
